@@ -32,6 +32,7 @@ def run_case(case: dict) -> CaseResult:
     idof = wire.ids()[1]
     expected: list = []
     marks: list = []
+    invalid: list = []
 
     def then(sess: Session):
         conn = sess.conn
@@ -40,6 +41,18 @@ def run_case(case: dict) -> CaseResult:
             msgs = tuple(pbgen.build(getattr(pb, n), spec) for n, spec in batch)
             n0 = tr.n_writes
             seq0 = len(env.trace)
+            if any(type(m) not in idof for m in msgs):
+                # a batch that cannot be sent (one member has no wire type): the call is refused; whatever it does, a
+                # refused batch puts nothing on the wire and uses up nothing -- the batches after it decode as usual
+                try:
+                    conn.send_messages(msgs)
+                    env.log("invalid_batch_accepted")
+                except Exception:  # noqa: BLE001
+                    pass
+                if tr.n_writes != n0:
+                    env.log("invalid_batch_wrote")
+                invalid.append(len(marks))
+                continue
             if len(msgs) == 1 and case.get("single_api"):
                 conn.send_message(msgs[0])
             else:
@@ -72,7 +85,9 @@ def run_case(case: dict) -> CaseResult:
     elif got != expected:
         k = next((i for i, (a, b) in enumerate(zip(got, expected)) if a != b), min(len(got), len(expected)))
         res.violations.append(Violation(ID, "c02:api:frames-differ", f"frame {k}: device decoded {[(t, p.hex()[:16]) for t, p in got[k:k + 2]]}, expected {[(t, p.hex()[:16]) for t, p in expected[k:k + 2]]} ({len(got)} vs {len(expected)} frames)"))
-    res.classes = ["api"] + (["noise"] if noise else ["plain"]) + (["batch_ge_2"] if any(nm > 1 for _, nm in marks) else [])
+    if any(e["kind"] == "invalid_batch_wrote" for e in env.trace) and not res.violations:
+        res.violations.append(Violation(ID, "c02:api:refused-batch-wrote", "a batch with a member that has no wire type put bytes on the wire"))
+    res.classes = ["api"] + (["noise"] if noise else ["plain"]) + (["refused_batch"] if invalid else []) + (["batch_ge_2"] if any(nm > 1 for _, nm in marks) else [])
     if noise and len(marks) >= 3:
         res.classes.append("noise_writes_ge_3")
     res.nontrivial = any(nm > 1 for _, nm in marks) or len(marks) >= 3
@@ -90,6 +105,8 @@ def _case(draw, tier):
         for _ in range(draw(st.sampled_from([1, 1, 2, 3]))):
             cls = draw(st.sampled_from(classes))
             batch.append([cls.__name__, draw(pbgen.message_strategy(cls))])
+        if draw(st.integers(0, 7)) == 3:
+            batch.insert(draw(st.integers(0, len(batch))), [draw(st.sampled_from(["BluetoothServiceData", "ExecuteServiceArgument", "VoiceAssistantAudioSettings"])), {}])
         batches.append(batch)
     return {"mode": "api", "noise": draw(st.booleans()), "single_api": draw(st.booleans()), "batches": batches}
 
@@ -104,3 +121,7 @@ def enumerated(tier):
         for lo in range(0, len(names), 6):
             yield {"mode": "api", "noise": noise, "batches": [[[n, {}] for n in names[lo:lo + 3]], [[n, {}]] if False else [[n, {}] for n in names[lo + 3:lo + 6]] or [[names[0], {}]]]}
         yield {"mode": "api", "noise": noise, "single_api": True, "batches": [[[n, {}]] for n in names[:12]]}
+        for pos in (0, 1, 2):
+            bad = [[n, {}] for n in names[:2]]
+            bad.insert(pos, ["BluetoothServiceData", {}])
+            yield {"mode": "api", "noise": noise, "batches": [[[names[0], {}]], bad, [[names[1], {}]], [[names[2], {}], [names[3], {}]]]}
